@@ -90,6 +90,19 @@ def projection(res, pid):
     return {"messages": msgs, "events": pevs, "final": finals, "actions": sorted(acts, key=str)}
 
 
+def overlapping_copies(res, pid):
+    """did two in-memory copies of the process write task states in overlapping periods?  (the cache may drop a process that still has work in
+    flight; the dropped copy goes on running in the scheduler while the next client action loads a second copy from rows that are not final yet)"""
+    seq = []
+    for st in res.get("steps", []):
+        for o in st["obs"]:
+            if o.get("k") == "tr" and o.get("pid") == pid and o.get("inst") is not None:
+                if not seq or seq[-1] != o["inst"]:
+                    seq.append(o["inst"])
+    # A … B … A: copy A wrote again after copy B had started writing
+    return len(seq) != len(set(seq))
+
+
 def first_diff(a, b):
     for key in ("actions", "messages", "events", "final"):
         if a[key] != b[key]:
@@ -211,6 +224,12 @@ def run(ctx):
         if bad:
             ctx.cov["monitor_failures"] += 1
             pid, (key, text), si = bad
+            if overlapping_copies(rc, pid):
+                # the root cause is established by the trace itself, whatever the symptom
+                ctx.violation("C13|two-live-copies-of-a-process", f"process {pid} among {len(procs)} processes (cache {cap}, {workers} workers, {store}) was written by two in-memory copies in "
+                              f"overlapping periods (dropped from the cache with work in flight, loaded again by the next action); symptom: {key} differ: {text[:300]}",
+                              {"scenario": scs[ci], "alone": scs[si], "pid": pid})
+                continue
             ctx.violation(f"C13|{key}-differ|{regime}", f"process {pid} among {len(procs)} processes (cache {cap}, {workers} workers, {store}): {key} differ from running it alone: {text[:400]}",
                           {"scenario": scs[ci], "alone": scs[si], "pid": pid})
         else:
